@@ -191,7 +191,7 @@ func genBase(r *lib.Rng, nconn int, concrete bool, clean bool) *base {
 	for i := range b.nodes {
 		for _, h := range []*H{b.nodes[i].Pre, b.nodes[i].Post} {
 			if h != nil && r.Chance(1, 3) {
-				opts := optionsFor(h.Ty)
+				opts := optionsNoMapZ(h.Ty)
 				h.Ret = opts[r.Intn(len(opts))]
 			}
 			if h != nil && r.Chance(1, 3) {
